@@ -72,18 +72,18 @@ theorem C14_consecutive_boards (s0 : GameState) (pp0 : PlayPhase) (hph : s0.phas
 /-! ## Non-vacuity -/
 
 /-- Gold elephant alone on square 36 (e4), Gold to move, start of a turn. -/
-private def exB : Board := Board.new (sqBit 36) (sqBit 36) 0 0 0 0 0
-private def ex0 : GameState :=
-  { p1Turn := true, moveNo := 2, phase := .play (PlayPhase.initial 0 [0]), board := exB, hash := 0 }
+private def exB_C14 : Board := Board.new (sqBit 36) (sqBit 36) 0 0 0 0 0
+private def ex0_C14 : GameState :=
+  { p1Turn := true, moveNo := 2, phase := .play (PlayPhase.initial 0 [0]), board := exB_C14, hash := 0 }
 private def exMs : List (Nat × Dir) := [(36, .up), (28, .right), (29, .right)]
 
-example : ex0.phase = .play (PlayPhase.initial 0 [0]) ∧ (PlayPhase.initial 0 [0]).step = 0 ∧
+example : ex0_C14.phase = .play (PlayPhase.initial 0 [0]) ∧ (PlayPhase.initial 0 [0]).step = 0 ∧
     exMs.length ≤ 3 := ⟨rfl, rfl, by decide⟩
 
 /-- a three-step turn with pairwise different boards: the four reported boards are the elephant on
 e4, e5, f5, g5 -/
 example :
-    (List.range 4).map (fun i => ((ex0.runMoves exMs).pieceBoardForStep i).elephants) =
+    (List.range 4).map (fun i => ((ex0_C14.runMoves exMs).pieceBoardForStep i).elephants) =
       [sqBit 36, sqBit 28, sqBit 29, sqBit 30] := by decide +kernel
 
 end Arimaa
